@@ -125,6 +125,36 @@ def transpose_pair_model(p1: list[int], p2: list[int], shape: list[int]) -> onnx
     return helper.make_model(g, opset_imports=[helper.make_opsetid("", 21)], ir_version=10)
 
 
+def chain_model(castlike: bool, ins: list[str]) -> Optional[onnx.ModelProto]:
+    """x → Transpose(p) → node(operands as classified) → Transpose(p⁻¹) → Neg → y; `other` operands are
+    run-time inputs with the TRANSPOSED layout, so folding the pair around them changes the result."""
+    if "absent" in ins or ins.count("chain") != 1 or (castlike and len(ins) != 2):
+        return None
+    perm, inv = [2, 0, 1], [1, 2, 0]
+    shape, tshape = [2, 3, 5], [5, 2, 3]
+    inputs = [_vi("x", shape)]
+    inits = []
+    names = []
+    for j, kd in enumerate(ins):
+        if kd == "chain":
+            names.append("t")
+        elif kd == "scalar":
+            inits.append(helper.make_tensor(f"s{j}", TensorProto.FLOAT, [], [0.5]))
+            names.append(f"s{j}")
+        else:
+            inputs.append(_vi(f"o{j}", tshape))
+            names.append(f"o{j}")
+    nodes = [
+        helper.make_node("Transpose", ["x"], ["t"], name="t1", perm=perm),
+        helper.make_node("CastLike" if castlike else "Max", names, ["m"], name="mid"),
+        helper.make_node("Transpose", ["m"], ["u"], name="t2", perm=inv),
+        helper.make_node("Neg", ["u"], ["y"], name="neg"),
+    ]
+    g = helper.make_graph(nodes, "g", inputs, [helper.make_tensor_value_info("y", TensorProto.FLOAT, None)],
+                          initializer=inits)
+    return helper.make_model(g, opset_imports=[helper.make_opsetid("", 21)], ir_version=10)
+
+
 def run_single_pass(model: onnx.ModelProto, pass_fn_name: str) -> Optional[onnx.ModelProto]:
     ir = _ir()
     opt = _opt()
@@ -422,6 +452,19 @@ def _search(kind: str, payload: dict, ctx: Any) -> Optional[dict]:
             return None
         why = differs(m, after, {"x": rs.rand(*shape).astype(np.float32)})
         return {"x_shape": shape, "why": why, "after_ops": op_types(after)} if why else None
+    if kind == "chain":
+        m = chain_model(bool(payload.get("castlike")), list(payload.get("ins", [])))
+        if m is None:
+            return None
+        after = run_single_pass(m, "remove_redundant_transpose_pairs_ir")
+        if after is None:
+            return None
+        feeds = {i.name: (rs.rand(*[d.dim_value for d in i.type.tensor_type.shape.dim]) * 4).astype(np.float32)
+                 for i in m.graph.input}
+        why = differs(m, after, feeds)
+        return {"graph": "x(2,3,5) → Transpose[2,0,1] → " + ("CastLike" if payload.get("castlike") else "Max") +
+                         str(payload.get("ins")) + " → Transpose[1,2,0]; non-scalar operands are inputs of shape (5,2,3)",
+                "why": why, "after_ops": op_types(after)} if why else None
     if kind == "exact":
         src, tgt = payload["src"], payload["tgt"]
         for sa in instances(src, {"A": 2, "B": 3}):
